@@ -458,6 +458,12 @@ def job(arg):
         # two crashes in one history (a crash during the recovery from a crash)
         h2 = (("P",), ("A", 1), ("P",), ("S",), ("P",), ("A", 0), ("A", 1), ("P",))
         check_history(res, h2, start, limit, double=(tier == "thorough" or (start, limit) == (1, 4)))
+        # two process deaths around an Echo exchange: the request that completed the exchange of the second lifetime must not be
+        # good for a third one (every process issues its own Echo value), nor may anything accepted in between
+        for h3 in ((("A", 0), ("K",), ("AE", 6), ("A", 5), ("K",), ("AR",), ("A", 5), ("A", 0)),
+                   (("A", 0), ("A", 1), ("K",), ("AE", 6), ("R",), ("K",), ("AR",), ("AE", 6), ("AR",)),
+                   (("P",), ("K",), ("P",), ("K",), ("P",), ("A", 0), ("K",), ("P",), ("A", 0))):
+            check_history(res, h3, start, limit, crashes=(tier == "thorough"))
         res.sample({"history": "12 x P, A1, S, 8 x P", "chunk_start": start, "chunk_limit": limit})
     else:
         for nts in (MAX - 3, MAX - 2, MAX - 1, MAX):
